@@ -1,7 +1,7 @@
 #!/bin/bash
 # Re-run every claimed check (quick) on the current tree so that the committed evidence files come
 # from clean runs. usage: tools/refresh_evidence.sh [ids...]
-cd /verif
+cd "$(dirname "$0")/.."
 ids="$@"
 [ -z "$ids" ] && ids=$(python3 -c "import json; print(' '.join(c['property_id'] for c in json.load(open('MANIFEST.json'))['checks']))")
 rc=0
